@@ -11,6 +11,7 @@ import (
 	"pgregory.net/rapid"
 
 	"verif/lib/ev"
+	"verif/lib/sched"
 )
 
 // seqActions is the shared action table of the sequential engine. Individual
@@ -50,6 +51,7 @@ func (w *World) seqActions() map[string]func(*rapid.T) {
 func TestC01(t *testing.T) {
 	st := ev.Get("C01", "TestC01")
 	rapid.Check(t, func(t *rapid.T) {
+		sched.SeedRand(t)
 		cfg := genCfg(t, -1, false)
 		w := NewWorld(t, cfg, st)
 		defer w.Teardown()
@@ -105,6 +107,7 @@ func TestC01(t *testing.T) {
 func TestC01Readers(t *testing.T) {
 	st := ev.Get("C01", "TestC01Readers")
 	rapid.Check(t, func(t *rapid.T) {
+		sched.SeedRand(t)
 		cfg := genCfg(t, -1, false)
 		w := NewWorld(t, cfg, st)
 		defer w.Teardown()
